@@ -2,7 +2,7 @@
 AggTrigger.tla histories are replayed into the real aggtrigger (installed in the real trigger dispatcher);
 Repl.tla transaction-group histories are replayed into a real master and, through the real Replayer, a replica."""
 PROPS = ["C24", "C25"]
-READY = False
+READY = True
 CLAIMS = {
  "C24": dict(technique="TLA+ invariant DestEqAggregateOfBase on an implementation-shaped model of OnDiskAggTrigger.Fire (cache validity, ColumnSeriesUnion, SliceColumnSeriesByEpoch, aggregate, cache store) checked by TLC; every TLC-enumerated write history replayed into the real trigger running in the real dispatcher",
              text="AggTrigger.tla models the base bucket as a last-writer-wins map and Fire as coded: head/tail from the first/last record, cachedAgg.Valid, RecordsToColumnSeries + ColumnSeriesUnion(new, cached) or the query of the upper-bound window, per destination SliceColumnSeriesByEpoch + aggregate (first/max/min/last/sum) + WriteCSM, and the deferred cache store. TLC checks exhaustively (bounded) that the intended design keeps every destination bucket equal to the aggregate of the base bars currently stored per window, and that the unchanged tree differs only through three named deviations. TLC enumerates every history of base write requests within the bound (in order, out of order, rewrites, requests spanning windows, one and two destinations) plus seeded longer random histories; each is replayed through the real write path with the real aggtrigger.NewTrigger installed in the server's trigger dispatcher (behind a wrapper that only signals that Fire returned), and after every request the destination buckets are queried and compared with open=first, high=max, low=min, close=last, volume=sum of the base bars stored in the window.",
